@@ -4,6 +4,7 @@ from __future__ import annotations
 
 import copy
 import itertools
+import os
 import re
 
 import gen
@@ -181,6 +182,36 @@ def type_variant(v):
     return v
 
 
+def same_size_twin(v):
+    """a dict that differs from `v` in exactly one leaf, the leaf's spelling having the same length (a digit or a letter
+    replaced by its neighbour); None if `v` has no such leaf"""
+    done = [False]
+
+    def go(x):
+        if done[0]:
+            return x
+        if isinstance(x, dict):
+            return {k: go(y) for k, y in x.items()}
+        if isinstance(x, list):
+            return [go(y) for y in x]
+        if isinstance(x, bool) or x is None:
+            return x
+        if isinstance(x, int) and 1 <= abs(x) % 10 <= 8:
+            done[0] = True
+            return x + (1 if x > 0 else -1)
+        if isinstance(x, str):
+            for i, ch in enumerate(x):
+                if ch.isascii() and ch.isalpha() and ch not in "zZeE":
+                    y = x[:i] + chr(ord(ch) + 1) + x[i + 1:]
+                    if y.lower() in ("true", "false", "on", "off", "none", "null") or x.lower() in ("true", "false", "on", "off", "none", "null"):
+                        return x
+                    done[0] = True
+                    return y
+        return x
+    r = go(v)
+    return r if done[0] else None
+
+
 def loose_twin(v):
     """a value that compares == to v in Python (dict order ignored, 1 == 1.0 == True) without being the same data"""
     if isinstance(v, dict):
@@ -245,6 +276,30 @@ def oracle_routes(ctx: Ctx, case: dict, d: dict, fl: str, suffix: str = "") -> N
             r2b = {k: v for k, v in r2b.items() if k != "FoamFile"}
         if not same(r2b, exp):
             ctx.violation("route DictWriter(mode w onto an existing, loosely equal file)+DictReader: read back differs from what was written", case, enc(r2b), enc(exp))
+    # the same path written again with different content of the same size and the same time stamps (coarse file-system
+    # clocks, cp -p, restored backups): what is read must be what is in the file now, through read and through load
+    tw2 = same_size_twin(d)
+    if tw2 is not None and not case.get("np"):
+        try:
+            with impl.scratch() as td:
+                p = td / ("s" + suffix)
+                reset_globals()
+                DictWriter.write(copy.deepcopy(tw2), p, mode="w")
+                _ = DictReader.read(p); _ = SDict().load(p)
+                st = os.stat(p)
+                DictWriter.write(copy.deepcopy(d), p, mode="w")
+                os.utime(p, ns=(st.st_atime_ns, st.st_mtime_ns))
+                if os.stat(p).st_size == st.st_size:
+                    ctx.tag("same-stat-rewrite")
+                    rs2 = spec.strip_placeholders(impl.plain(DictReader.read(p)))
+                    rs3 = spec.strip_placeholders(impl.plain(SDict().load(p)))
+                    if fl == "foam":
+                        rs2 = {k: v for k, v in rs2.items() if k != "FoamFile"}; rs3 = {k: v for k, v in rs3.items() if k != "FoamFile"}
+                    if not same(rs2, exp) or not same(rs3, exp):
+                        ctx.violation("file route: a file rewritten with different content of the same size and time stamps is read back as the old content",
+                                      case, enc(rs2 if not same(rs2, exp) else rs3), enc(exp))
+        except Exception as e:  # noqa: BLE001
+            ctx.violation("file route (same path rewritten) raises", case, repr(e), enc(exp)); return
     # the same data handed over in other argument types: OrderedDict / str subclass / IntEnum values, path as str and PurePath
     if not case.get("np") and hash(repr(d)) % 4 == 0:
         try:
